@@ -67,6 +67,11 @@ class Exec:
     def __init__(self, cls, states, list_states, metrics_param=None, n_src=2):
         self.cls = cls
         self.meths = class_methods(cls)
+        import sys
+        self.globs = {}
+        for k in reversed(cls.__mro__):
+            if k.__module__.startswith("torcheval") and k.__module__ in sys.modules:
+                self.globs.update(vars(sys.modules[k.__module__]))
         self.states, self.list_states = set(states), set(list_states)
         self.metrics_param = metrics_param
         self.n_src = n_src
@@ -79,6 +84,12 @@ class Exec:
         if isinstance(e, ast.Name):
             if e.id in env.locals:
                 return env.locals[e.id]
+            if e.id in self.globs:
+                v = self.globs[e.id]
+                if isinstance(v, (str, int, float, bool, type(None))):
+                    return ("const", repr(v))
+                if isinstance(v, (tuple, list)) and all(isinstance(x, (str, int, float, bool, type(None))) for x in v):
+                    return ("tuple",) + tuple(("const", repr(x)) for x in v)
             return ("glob", e.id)
         if isinstance(e, ast.Attribute):
             if isinstance(e.value, ast.Name) and e.value.id == "self":
@@ -138,6 +149,22 @@ class Exec:
             return self.call(e, env)
         if isinstance(e, ast.Starred):
             return ("star", self.ev(e.value, env))
+        if isinstance(e, (ast.ListComp, ast.GeneratorExp)) and len(e.generators) == 1 and not e.generators[0].ifs \
+                and isinstance(e.generators[0].target, ast.Name) and not e.generators[0].is_async:
+            it = self.ev(e.generators[0].iter, env)
+            if it[0] in ("tuple", "list") and all(x[0] == "const" for x in it[1:]):
+                tgt = e.generators[0].target.id
+                saved = env.locals.get(tgt, None)
+                items = []
+                for x in it[1:]:
+                    env.locals[tgt] = x
+                    items.append(self.ev(e.elt, env))
+                if saved is None:
+                    env.locals.pop(tgt, None)
+                else:
+                    env.locals[tgt] = saved
+                return ("list",) + tuple(items)
+            raise Unsupported("comprehension over a non-constant sequence")
         if isinstance(e, (ast.ListComp, ast.GeneratorExp, ast.DictComp, ast.SetComp, ast.Lambda)):
             raise Unsupported("comprehension")
         raise Unsupported("expression " + type(e).__name__)
@@ -203,7 +230,13 @@ class Exec:
         raise Unsupported("call target")
 
     def fcall(self, name, e, env):
-        args = [self.ev(a, env) for a in e.args]
+        args = []
+        for a in e.args:
+            v = self.ev(a, env)
+            if v[0] == "star" and v[1][0] in ("tuple", "list"):
+                args += list(v[1][1:])
+            else:
+                args.append(v)
         kw = {k.arg: self.ev(k.value, env) for k in e.keywords}
         if name == "torch.cat":
             lst = args[0] if args else kw.get("tensors")
@@ -215,8 +248,8 @@ class Exec:
             return ("min", args[0], args[1])
         if name == "len" and len(args) == 1:
             return ("len", args[0])
-        if name == "getattr" and len(args) == 2 and isinstance(e.args[0], ast.Name) and e.args[0].id == "self" and args[1][0] == "const":
-            return self.ev(ast.Attribute(value=ast.Name(id="self", ctx=ast.Load()), attr=eval(args[1][1]), ctx=ast.Load()), env)
+        if name == "getattr" and len(args) == 2 and args[1][0] == "const" and isinstance(eval(args[1][1]), str):
+            return self.ev(ast.Attribute(value=e.args[0], attr=eval(args[1][1]), ctx=ast.Load()), env)
         if name == "setattr" and len(args) == 3 and isinstance(e.args[0], ast.Name) and e.args[0].id == "self" and args[1][0] == "const":
             self.assign(ast.Attribute(value=ast.Name(id="self", ctx=ast.Load()), attr=eval(args[1][1]), ctx=ast.Store()), args[2], env)
             return ("const", "None")
@@ -230,6 +263,14 @@ class Exec:
             return recv_ast.attr
         if isinstance(recv_ast, ast.Name) and recv_ast.id in env.alias:
             return env.alias[recv_ast.id]
+        if isinstance(recv_ast, ast.Call) and isinstance(recv_ast.func, ast.Name) and recv_ast.func.id == "getattr" and len(recv_ast.args) == 2 \
+                and isinstance(recv_ast.args[0], ast.Name) and recv_ast.args[0].id == "self":
+            try:
+                n = self.ev(recv_ast.args[1], env)
+            except Unsupported:
+                return None
+            if n[0] == "const" and isinstance(eval(n[1]), str) and eval(n[1]) in self.list_states:
+                return eval(n[1])
         return None
 
     def bind_params(self, fn, e, env):
@@ -286,7 +327,25 @@ class Exec:
         return res
 
     def inline(self, name, e, env):
-        outs = self.inline_paths(name, e, env)
+        n_conds, state0 = len(env.conds), dict(env.state)
+        outs = self.inline_paths(name, e, env.fork() if True else env)
+        if len(outs) > 1 and all(oc is None and en.state == state0 for en, oc, _ in outs):
+            # a pure helper method with several returns: its value is a conditional term
+            def combine(paths):
+                if len(paths) == 1 and not paths[0][0]:
+                    return paths[0][1]
+                if any(not cs for cs, _ in paths):
+                    raise Unsupported(f"self.{name}(): paths do not partition")
+                c = paths[0][0][0]
+                pos = [(cs[1:], v) for cs, v in paths if cs[0] == c]
+                neg = [(cs[1:], v) for cs, v in paths if cs[0] == self.neg(c)]
+                if len(pos) + len(neg) != len(paths) or not pos or not neg:
+                    raise Unsupported(f"self.{name}(): paths do not partition")
+                return ("ite", c, combine(pos), combine(neg))
+            val = combine([(en.conds[n_conds:], v) for en, _, v in outs])
+            for en, _, _ in outs:
+                env.checks = en.checks if len(en.checks) > len(env.checks) else env.checks
+            return val
         if len(outs) != 1 or outs[0][1] is not None:
             raise Unsupported(f"self.{name}() forks or raises in expression position")
         en, _, val = outs[0]
